@@ -10,6 +10,16 @@ from values import (Agg, Box_, Bytes, FnItem, INT_TYPES, OPTION, Opaque, PathEnd
                     part_len, some, ty_range, unit, wrap)
 
 MODELS = {}
+REGEX_MODELS = []
+
+
+def model_re(pattern):
+    import re as _re
+
+    def deco(fn):
+        REGEX_MODELS.append((_re.compile(pattern), fn))
+        return fn
+    return deco
 
 
 def model(*paths):
@@ -96,6 +106,8 @@ def as_elems(I, v):
     if isinstance(v, SliceView):
         base = as_elems(I, v.base)
         return base[v.lo:v.hi]
+    if isinstance(v, IntBytes):
+        return as_elems(I, v.to_bytes(I))
     if isinstance(v, Bytes):
         out = []
         for p in v.parts:
@@ -343,6 +355,11 @@ class Models:
         kind = res.get("kind")
         if kind == "virtual" and "virtual" in self.extra:
             return self.extra["virtual"]
+        for p in (res.get("path"), f.get("path")):
+            if p:
+                for rx, fn in REGEX_MODELS:
+                    if rx.search(p):
+                        return fn
         return None
 
     def length_of(self, I, v):
@@ -705,8 +722,16 @@ def _extend_from_slice(I, f, a):
 def _vec_extend(I, f, a):
     v = deref(I, a[0])
     src = a[1]
-    if isinstance(v, Bytes):
-        v.parts.extend(to_bytes(I, src).parts)
+    if isinstance(v, Bytes) or hasattr(v, "extend_from_slice"):
+        if isinstance(src, It):
+            items = list(_drive(I, src))
+            srcb = Bytes([("lit", bytes([x])) if isinstance(x, int) else ("u8", x) for x in items])
+        else:
+            srcb = to_bytes(I, src)
+        if isinstance(v, Bytes):
+            v.parts.extend(srcb.parts)
+        else:
+            v.extend_from_slice(I, srcb)
         return unit()
     if isinstance(v, VecObj):
         it = into_iter(I, src)
@@ -1966,3 +1991,35 @@ def _repeat(I, f, a):
     cs = models2.charset_of(I, b)
     kind = "str" if b.is_str else "bytes"
     return Bytes([("pay", Payload(kind, cs, Sym("repeat_len", (), "usize", lo * nlo, hi * nhi), origin="repeat_of:%d" % b.src_id))], b.is_str)
+
+
+@model_re(r"convert::num::(?:ptr_try_from_impls::)?<impl std::convert::TryFrom<(\w+)> for (\w+)>::try_from$")
+def _int_try_from(I, f, a):
+    import re as _re
+    p = (f.get("res") or {}).get("path") or f.get("path")
+    m = _re.search(r"TryFrom<(\w+)> for (\w+)>", p)
+    src, dst = m.group(1), m.group(2)
+    v = a[0]
+    if hasattr(v, "resolve"):
+        v = v.resolve(I)
+    tlo, thi = ty_range(dst)
+    lo, hi = bounds(v)
+    if lo >= tlo and hi <= thi:
+        return ok(I.cast_int(v, src, dst))
+    if hi < tlo or lo > thi:
+        return err(Opaque("TryFromIntError"))
+    fits = I.truth(Sym("Le", (v, thi), "bool")) and (tlo <= lo or I.truth(Sym("Ge", (v, tlo), "bool")))
+    if fits:
+        return ok(I.cast_int(v, src, dst))
+    return err(Opaque("TryFromIntError"))
+
+
+@model_re(r"convert::num::<impl std::convert::From<(\w+)> for (\w+)>::from$")
+def _int_from(I, f, a):
+    import re as _re
+    p = (f.get("res") or {}).get("path") or f.get("path")
+    m = _re.search(r"From<(\w+)> for (\w+)>", p)
+    v = a[0]
+    if hasattr(v, "resolve"):
+        v = v.resolve(I)
+    return I.cast_int(v, m.group(1), m.group(2))
